@@ -30,6 +30,11 @@ CLAIMED = {
    text="Strict Ok <=> lenient Ok without warnings (same model); lenient warnings => strict error equal to the first warning (Display and Debug); lenient error => strict error; each injected documented defect (claimed only when the specification tables decide it) must be rejected by strict loading.",
    note="Injection claims rely on SpecIndex (public listing) and my own grammar matcher; sibling order is not claimed as a defect (the validator documents that it ignores order).",
    ref="DESIGN.md section 3 C08"),
+ 'C20': dict(
+   technique="proptest-generated texts in the AUTOSAR lexical forms paired with their exact value (u128 / big-integer arithmetic), checked for 12 integer widths and for correctly rounded float conversion by an exact midpoint test; value round trip through element slots (set, serialize, load)",
+   text="Every integer width is compared with exact arithmetic at and around its bounds in every radix and on 40-digit random literals; float results are judged against the two neighbouring midpoints in big-integer arithmetic (no float parsing in the oracle); enumeration items of every enumeration per version, escapable strings, boundary u64 and all f64 bit classes are formatted and parsed back through real element slots.",
+   note="Texts whose exact value exceeds the largest finite double are not judged; attribute slots are exercised through C01/C07 rather than here.",
+   ref="DESIGN.md section 3 C20"),
 }
 NA_REASON = "check not built yet (construction in progress, see DESIGN.md section 6)"
 
